@@ -283,6 +283,7 @@ def check(ctx):
     handlers(ctx)
     removal_shape(ctx)
     confirmed_never_removed(ctx)
+    guards.check_accumulators_threaded(ctx, [f for f in ctx.prog.all_functions() if f.module.name.startswith('adsg_core.graph.')])
     # graph algorithms memoise in caller-provided cache dicts: keys must cover what the value depends on
     persist.check_memo_functions(ctx, [f for f in ctx.prog.all_functions() if f.module.name.startswith('adsg_core.graph.')])
     edges.check_walks(ctx, categories={'incompat-scan', 'derivation', 'default'},
